@@ -60,6 +60,8 @@ class Register:
                     raise JaqalError(
                         f"Cannot slice register {alias_from.name} with {bound}: not an integer."
                     )
+            if isinstance(alias_slice.step, int) and alias_slice.step == 0:
+                raise JaqalError("Slice step cannot be zero.")
             if (
                 isinstance(alias_slice.start, AnnotatedValue)
                 or isinstance(alias_slice.stop, AnnotatedValue)
@@ -93,8 +95,6 @@ class Register:
                         f"Cannot slice parameter {alias_from.name} of non-register kind {alias_from.kind}."
                     )
             else:
-                if alias_slice.step is not None and alias_slice.step == 0:
-                    raise JaqalError("Slice step cannot be zero.")
                 if alias_slice.start is not None and alias_slice.start < 0:
                     raise JaqalError("Index out of range.")
                 if alias_from.size is not None and not isinstance(
